@@ -209,6 +209,64 @@ def real_state_records(S, seed):
     return recs
 
 
+def system_trust_records(S, seed):
+    """The system environment (no -K): a persistent user keyring with the classic trust model, in which
+    the signer's key is valid only through a certification by an ultimately trusted key.  The trust
+    path is withdrawn and restored step by step; after every step gemato is the FIRST gpg user (a trust
+    database marked stale must not be answered from), plain gpg is asked second (oracle)."""
+    from . import gem, gpgenv
+    rng = random.Random('systrust-%d' % seed)
+    recs = []
+    known = set(VOCAB)
+    U = gpgenv.Home()
+    old_home = os.environ.get('GNUPGHOME')
+    try:
+        cert = U.genkey('Certifier <certifier@example.com>')
+        U.import_key(S['pub']['valid'])
+        sfpr = S['keys']['valid']
+        U.run(['--yes', '--pinentry-mode', 'loopback', '--passphrase', '', '--default-key', cert,
+               '--quick-sign-key', sfpr], check=True)
+        U.kill()
+        text = S['signed']['valid']
+        steps = [('cert', 6), ('cert', 3), ('cert', 6), ('cert', 2), ('cert', 5), ('cert', 6), ('signer', 6),
+                 ('cert', 2), ('signer', 3), ('signer', 2), ('cert', 6), ('cert', 4), ('signer', 6), ('signer', 4)]
+        steps += [(rng.choice(['cert', 'signer']), rng.choice([2, 3, 4, 5, 6])) for _ in range(10)]
+        steps += [('cert', 6), ('delete-cert', 0)]
+        os.environ['GNUPGHOME'] = U.path
+        for who, lvl in steps:
+            if who == 'delete-cert':
+                U.run(['--yes', '--delete-secret-and-public-key', cert])
+            else:
+                U.set_ownertrust(cert if who == 'cert' else sfpr, lvl)
+            U.kill()
+            env = gem.gemato.openpgp.SystemGPGEnvironment()
+            try:
+                r = env.verify_file(io.StringIO(text))
+                obs = 'accept' if r is not None else 'internal:None'
+            except Exception as e:  # noqa
+                obs = classify_exc(gem, e)
+            m = gem.gemato.manifest.ManifestFile()
+            try:
+                m.load(io.StringIO(text), verify_openpgp=True, openpgp_env=env)
+            except Exception:  # noqa
+                pass
+            rc, st = U.verify_status(text)
+            sq = [(w.split(' ')[0] if w.split(' ')[0] in known else 'OTHER') for w in st]
+            recs.append({'kind': 'verify', 'sq': sq, 'exit': rc, 'obs': obs, 'signed': bool(m.openpgp_signed),
+                         'obsup': '', 'real': True, 'state': {'key': 'system:' + who, 'trust': str(lvl)}})
+    finally:
+        if old_home is None:
+            os.environ.pop('GNUPGHOME', None)
+        else:
+            os.environ['GNUPGHOME'] = old_home
+        U.close()
+    return recs
+
+
+def rng_choice(k, xs):
+    return xs[k % len(xs)]
+
+
 def tamper_records(args):
     """(signed text, public key bytes, fingerprint, positions) -> records"""
     text, pub, fpr, positions = args
@@ -239,6 +297,22 @@ def tamper_records(args):
             except Exception as e:  # noqa
                 obs = 'internal:' + type(e).__name__
             recs.append({'kind': 'tamper', 'obs': obs, 'significant': significant, 'pos': pos})
+        # NUL bytes added at the end of a signed line (gpg drops them like trailing blanks when it verifies,
+        # Python's split() does not): the text that would be used is not the text that was signed
+        for pos in positions[:6]:
+            j = text.find('\n', max(pos, body_start))
+            if j < 0 or j >= body_end:
+                continue
+            t2 = text[:j] + rng_choice(pos, ['\x00', '\x00\x00 ', ' \x00']) + text[j:]
+            m = gem.gemato.manifest.ManifestFile()
+            try:
+                m.load(io.StringIO(t2), verify_openpgp=True, openpgp_env=env)
+                obs = 'accept' if m.openpgp_signed else 'plain'
+            except gem.GematoException as e:
+                obs = classify_exc(gem, e) if 'OpenPGP' in type(e).__name__ else 'syntax'
+            except Exception as e:  # noqa
+                obs = 'internal:' + type(e).__name__
+            recs.append({'kind': 'tamper', 'obs': obs, 'significant': True, 'pos': j})
     finally:
         env.close()
     return recs
